@@ -1,43 +1,51 @@
 """null-check dominance (R13a/R13b): every dereference of a pointer value is dominated by an edge on which it is non-null"""
 from .cfg import dominators
-from .guards import dominating_edges, edge_condition
+from .guards import dominating_edges, edge_condition, implied_atoms
 from .vflow import derived_pointers, strip_ptr_casts
 from . import callgraph, effects
+
+def _null_branches(fn, vals):
+    """for every two-way branch: (block, [edges on which a value of `vals` is known non-null], [edges on which it is known null])"""
+    out = []
+    for b in fn.order:
+        t = b.insts[-1]
+        if t.op != 'br' or len(t.targets) != 2 or not t.ops:
+            continue
+        tg = [fn.blocks[t.targets[0]], fn.blocks[t.targets[1]]]
+        if tg[0] is tg[1]:
+            continue
+        nn, nl = [], []
+        for truth, dst in ((True, tg[0]), (False, tg[1])):
+            for c, tv in implied_atoms(fn, t.ops[0], truth):
+                if c.pred not in ('eq', 'ne'):
+                    continue
+                a0, a1 = c.ops
+                other = a0 if a1 == 'null' else (a1 if a0 == 'null' else None)
+                if other is None or (strip_ptr_casts(fn, other) not in vals and other not in vals):
+                    continue
+                is_null = (c.pred == 'eq') == tv
+                (nl if is_null else nn).append((b, dst))
+        if nn or nl:
+            out.append((b, tg, nn, nl))
+    return out
 
 def nonnull_edges(fn, vals):
     """CFG edges (src,dst) on which some value in `vals` (aliases of one pointer) is known non-null"""
     edges = set()
-    for b in fn.order:
-        t = b.insts[-1]
-        if t.op != 'br' or len(t.targets) != 2 or not t.ops:
-            continue
-        c = fn.defs.get(t.ops[0])
-        if c is None or c.op != 'icmp' or c.pred not in ('eq', 'ne'):
-            continue
-        a0, a1 = c.ops
-        other = a0 if a1 == 'null' else (a1 if a0 == 'null' else None)
-        if other is None or strip_ptr_casts(fn, other) not in vals and other not in vals:
-            continue
-        tgt = fn.blocks[t.targets[1]] if c.pred == 'eq' else fn.blocks[t.targets[0]]
-        if fn.blocks[t.targets[0]] is not fn.blocks[t.targets[1]]:
-            edges.add((b, tgt))
+    for b, tg, nn, nl in _null_branches(fn, vals):
+        edges.update(nn)
     return edges
 
 def null_edges(fn, vals):
+    """CFG edges on which the pointer is, or may be, NULL at a branch that tests it: the edge where it is known null, and the
+    sibling of an edge where it is known non-null (`p == NULL || q == NULL` taken: either may be the null one)"""
     edges = set()
-    for b in fn.order:
-        t = b.insts[-1]
-        if t.op != 'br' or len(t.targets) != 2 or not t.ops:
-            continue
-        c = fn.defs.get(t.ops[0])
-        if c is None or c.op != 'icmp' or c.pred not in ('eq', 'ne'):
-            continue
-        a0, a1 = c.ops
-        other = a0 if a1 == 'null' else (a1 if a0 == 'null' else None)
-        if other is None or (strip_ptr_casts(fn, other) not in vals and other not in vals):
-            continue
-        tgt = fn.blocks[t.targets[0]] if c.pred == 'eq' else fn.blocks[t.targets[1]]
-        edges.add((b, tgt))
+    for b, tg, nn, nl in _null_branches(fn, vals):
+        edges.update(nl)
+        for (_, d) in nn:
+            for x in tg:
+                if x is not d:
+                    edges.add((b, x))
     return edges
 
 class NullCheck:
